@@ -1,5 +1,6 @@
 import CheetahModel.DriverMaps
 import CheetahModel.DriverLattice
+import CheetahModel.DriverElems
 /-!
 # Line-protocol driver
 
@@ -14,7 +15,7 @@ def parseF (s : String) : Option Float := s.toNat?.map fun n => Float.ofBits n.t
 def fmtF (x : Float) : String := toString x.toBits.toNat
 
 def floatOps : List (String → Array Float → Option (List Float)) :=
-  [Drv.mapsOp]
+  [Drv.mapsOp, DrvEl.elemsOp]
 
 def runFloatOp (op : String) (a : Array Float) : Option (List Float) :=
   floatOps.findSome? fun f => f op a
